@@ -427,7 +427,7 @@ def mon_publication(case, lines):
     if len(case['cfg']) < 4 or case['cfg'][3] != 1:
         return None
     for i, (t, k, o, v, m) in _events(lines):
-        if k == K['FAULT'] and v != 6:
+        if k == K['FAULT'] and v < 6:
             return 'overlapping access windows (fault code %d) on the published datum at trace line %d' % (v, i)
     last = None
     for o in case['progs'][0]:
@@ -503,6 +503,21 @@ def mon_slot_assigned(case, lines):
     return None
 
 
+def mon_static_init(case, lines):
+    """the declared and the indexed lines exist whenever a client can reach them, also during the static initialisation
+    of the client's own global objects: the driver's EarlyUser (a global defined before the DECLARE_* macros) attaches a
+    trigger and a detector to the declared line and to a valid index at that time and logs K_FAULT 700+bits on failure"""
+    for i, (t, k, o, v, m) in _events(lines):
+        if k == K['FAULT'] and 700 < v < 716:
+            b = v - 700
+            what = [w for bit, w in ((1, 'the trigger on the declared line got no line (it will never trip it)'),
+                                     (2, 'the detector on the declared line got no line (isTripped would dereference null)'),
+                                     (4, 'a trigger on a valid index was rejected or got no line'),
+                                     (8, 'a detector on a valid index was rejected or got no line')) if b & bit]
+            return 'a global object used the static trip lines during static initialisation: ' + '; '.join(what)
+    return None
+
+
 def _line_key(o):
     """abstract line named by a Make operation"""
     k = o[0]
@@ -569,5 +584,5 @@ MONITORS = {
     'true_before_trip': mon_true_before_trip, 'untripped': mon_untripped, 'lines_independent': mon_lines_independent,
     'index_range': mon_index_range, 'moved_from': mon_moved_from, 'publication': mon_publication,
     'mo_weakened': mon_mo_weakened, 'no_acquire_load': mon_no_acquire_load,
-    'slot_assigned': mon_slot_assigned, 'trip_visible': mon_trip_visible, 'crash': mon_crash,
+    'slot_assigned': mon_slot_assigned, 'static_init': mon_static_init, 'trip_visible': mon_trip_visible, 'crash': mon_crash,
 }
